@@ -129,7 +129,9 @@ def loop_shape(header, body):
     m = re.match(r"^while(\w+)<", h)
     if m:
         return "SCounter"
-    if h == 'loop' and re.search(r"self\.\w+_index\+=1;", b) and 'return' in b and 'all_ids.contains' in b:
+    # id generators: the counter is advanced on every iteration (a statement at the top level of the body, before or after the
+    # name is built) and the only exit is `if !<set>.contains(<name or hash>) { return .. }`
+    if h == 'loop' and re.match(r"^(?:[^{}]*;)?[\w.]+\+=1;[^{}]*if![\w.]+\.contains\(&\w+\)\{return[^{}]*;\}$", b) and 'break' not in b and 'continue' not in b:
         return "SGenId"
     if re.match(r"^whileletSome\((\w+)\)=(\w+)(?:\.and_then\(Arc::get_mut\))?$", h):
         return "SOwnedTree"
@@ -171,7 +173,7 @@ def loops_of(rel, src):
         body = sq(plain[o + 1:c])
         out.append(dict(file=rel, fn=S.enclosing(spans, m.start()), header=header,
                         digest=hashlib.sha256(S.squash(body).encode()).hexdigest()[:12],
-                        linky=bool(LINKY.search(code[m.start():c])), shape=loop_shape(header, plain[o + 1:c]),
+                        linky=bool(LINKY.search(code[m.start():c])), shape=loop_shape(header, code[o + 1:c]),
                         line=src.count('\n', 0, m.start()) + 1, body=body))
     return out
 
@@ -266,11 +268,135 @@ def generate(api):
                 ins.append("  (%s, %s, %s)" % (coq_str(name), coq_str(fn), coq_str(how)))
         out.append("Definition G_CACHE_LOOKUPS : list cache_lookup := [\n%s\n].\n" % ";\n".join(rows))
         out.append("Definition G_CACHE_INSERTS : list (string * string * string) := [\n%s\n].\n" % ";\n".join(ins))
+        # (4) recursion: strongly connected components of the call graph of the anchor files
+        files = {rel: api.rd(os.path.join(ROOT, rel)) for rel in rels}
+        edges = call_graph(files)
+        comps = sccs(edges)
+        if len(comps) < 3:
+            raise api.Unsupported("only %d recursive groups found in the call graph of the anchor files" % len(comps))
+        out.append("(* every group of directly / mutually recursive functions (strongly connected component of the call graph; calls are")
+        out.append("   matched by name, so a group may be a name clash): digest of the member list, members `file::fn`, some member follows")
+        out.append("   reference attributes *)")
+        out.append("Record rec_site := mk_rec { r_digest : string; r_members : list string; r_links : bool }.\n")
+        rrows = []
+        for comp in comps:
+            members = ["%s::%s" % (r, n) for r, n in comp]
+            linky = False
+            for r, n in comp:
+                code = S.blank_comments_and_strings(files[r])
+                for nm, a, b in S.fn_spans(code):
+                    if nm == n and LINKY.search(code[a:b]):
+                        linky = True
+            rrows.append("  mk_rec %s [%s] %s" % (coq_str(hashlib.sha256(";".join(members).encode()).hexdigest()[:12]),
+                                                 "; ".join(coq_str(x) for x in members), 'true' if linky else 'false'))
+        out.append("Definition parser_recursions : list rec_site := [\n%s\n].\n" % ";\n".join(rrows))
+        # (5) `for` loops end when their iterator does: the iterator types implemented in the anchor files, and every use of a std
+        # source that never ends (cycle / repeat / repeat_with / from_fn / successors / open ranges `a..` as a loop source)
+        iters, unbounded, nfor = [], [], 0
+        for rel in rels:
+            code = S.blank_comments_and_strings(files[rel])
+            tm = re.search(r"#\[cfg\(test\)\]", code)
+            limit = tm.start() if tm else len(code)
+            spans = S.fn_spans(code)
+            nfor += len([m for m in re.finditer(r"(?<![\w.])for\s+[^;{}]*?\sin\s", code) if m.start() < limit])
+            for m in re.finditer(r"impl\s*(?:<[^{}]*?>)?\s*Iterator\s+for\s+(\w+)", code):
+                if m.start() >= limit:
+                    continue
+                o = code.find('{', m.end())
+                c = S.close_of(code, o)
+                iters.append((rel, m.group(1), hashlib.sha256(S.squash(S.blank_comments(files[rel])[o:c]).encode()).hexdigest()[:12]))
+            for m in re.finditer(r"\.\s*cycle\s*\(\s*\)|\b(?:repeat|repeat_with|from_fn|successors)\s*\(|\bin\s+[^{};]*?\.\.\s*\{", code):
+                if m.start() < limit:
+                    unbounded.append((rel, S.enclosing(spans, m.start()), sq(code[m.start():m.end()])))
+        out.append("(* iterator types implemented in the anchor files (file, type, digest of the impl block), uses of std iterator sources that")
+        out.append("   never end, number of `for` loops *)")
+        out.append("Definition parser_iterators : list (string * string * string) := [\n%s\n].\n"
+                   % ";\n".join("  (%s, %s, %s)" % (coq_str(a), coq_str(b), coq_str(c)) for a, b, c in iters))
+        out.append("Definition parser_unbounded_sources : list (string * string * string) := [%s].\n"
+                   % "; ".join("(%s, %s, %s)" % (coq_str(a), coq_str(b), coq_str(c)) for a, b, c in unbounded))
+        out.append("Definition parser_for_loops : nat := %d.\n" % nfor)
         api.write_gen('Totality.v', "\n".join(out))
         import translate
         with open(os.path.join(translate.GEN, 'Loops.lines.txt'), 'w') as f:
             for l in loops:
                 f.write("%s:%d\t%s\t%s\t%s\t%s\t%s\n    %s\n" % (l['file'], l['line'], l['fn'], l['header'], l['digest'], l['linky'], l['shape'], l['body'][:400]))
-        api.ok('tables', 'totality', loops=len(loops), nonzero_unwraps=len(guards), cache_lookups=len(rows))
+        api.ok('tables', 'totality', recursive_groups=len(comps), loops=len(loops), nonzero_unwraps=len(guards), cache_lookups=len(rows))
     except (api.Unsupported, OSError, ValueError, IndexError) as e:
         api.broken('table', 'totality facts', PROPS, e)
+
+
+# ------------------------------------------------------------------------------------------------ (4) recursion
+def module_of(rel):
+    parts = rel[:-3].split('/')
+    return parts[-2] if parts[-1] == 'mod' else parts[-1]
+
+
+def call_graph(files):
+    """files: {rel: src}.  Nodes (rel, fn); an edge for every call `f(`, `m::f(`, `Self::f(`, `self.f(` / `x.f(` that resolves to a fn
+    of the anchor files: qualified by a module name -> that module; unqualified or method call -> the same file if it defines f, else
+    the only anchor file that defines f (ambiguous names are not resolved).  Over-approximates (method calls are matched by name)."""
+    defs = {}
+    bodies = {}
+    for rel, src in files.items():
+        code = S.blank_comments_and_strings(src)
+        tm = re.search(r"#\[cfg\(test\)\]", code)
+        limit = tm.start() if tm else len(code)
+        for name, a, b in S.fn_spans(code):
+            if a >= limit:
+                continue
+            defs.setdefault(name, set()).add(rel)
+            bodies.setdefault((rel, name), []).append(code[a:b])
+    mods = {}
+    for rel in files:
+        mods.setdefault(module_of(rel), []).append(rel)
+    edges = {k: set() for k in bodies}
+    for (rel, name), bs in bodies.items():
+        for body in bs:
+            for m in re.finditer(r"(?:\b(\w+)\s*::\s*)?\b([a-z_]\w*)\s*(?:::<[^()]*>)?\s*\(", body):
+                qual, callee = m.group(1), m.group(2)
+                if callee not in defs or callee in ('if', 'while', 'match', 'for', 'loop', 'return', 'fn'):
+                    continue
+                if re.search(r"\bfn\s+$", body[:m.start(2)]):
+                    continue                # a nested fn definition, not a call
+                if qual in mods:
+                    tgt = [r for r in mods[qual] if r in defs[callee]]
+                elif rel in defs[callee]:
+                    tgt = [rel]
+                elif len(defs[callee]) == 1 and qual in (None, 'super', 'crate', 'Self', 'self', 'parser', 'converter'):
+                    tgt = list(defs[callee])
+                else:
+                    tgt = []
+                for t in tgt:
+                    edges[(rel, name)].add((t, callee))
+    return edges
+
+
+def sccs(edges):
+    index, low, onst, st, out = {}, {}, set(), [], []
+    import sys
+    sys.setrecursionlimit(max(sys.getrecursionlimit(), 20000))
+
+    def go(v):
+        index[v] = low[v] = len(index)
+        st.append(v)
+        onst.add(v)
+        for w in edges.get(v, ()):
+            if w not in index:
+                go(w)
+                low[v] = min(low[v], low[w])
+            elif w in onst:
+                low[v] = min(low[v], index[w])
+        if low[v] == index[v]:
+            comp = []
+            while True:
+                w = st.pop()
+                onst.discard(w)
+                comp.append(w)
+                if w == v:
+                    break
+            if len(comp) > 1 or v in edges.get(v, ()):
+                out.append(sorted(comp))
+    for v in sorted(edges):
+        if v not in index:
+            go(v)
+    return sorted(out)
